@@ -11,11 +11,28 @@ import (
 
 	"github.com/janelia-flyem/dvid/dvid"
 	"github.com/janelia-flyem/dvid/storage"
+
+	"verifharness/internal/crashkv"
 )
 
 func init() {
 	calls["log.append"] = callLogAppend
 	calls["log.read"] = callLogRead
+	calls["crash.armtorn"] = callArmTorn
+}
+
+// callArmTorn arms the crash engine n writes from now; when that write is a log append of a
+// crash-wrapped log, only the first `torn` bytes of the framed record reach the file.
+func callArmTorn(args json.RawMessage) (interface{}, error) {
+	var a struct {
+		N    uint64 `json:"n"`
+		Torn int    `json:"torn"`
+	}
+	if err := json.Unmarshal(args, &a); err != nil {
+		return nil, err
+	}
+	crashkv.ArmTorn(a.N, a.Torn)
+	return crashkv.Count(), nil
 }
 
 type logArgs struct {
